@@ -593,6 +593,7 @@ pub fn cmd_whole(args: &[String]) -> i32 {
     arity!(2, (i32, i32));
     arity!(3, (i32, i32, i32));
     arity!(4, (i32, i32, i32, i32));
+    recs.extend(writer_sequences());
     for r in &recs {
         if writeln!(out, "{r}").is_err() {
             return 2;
@@ -603,4 +604,60 @@ pub fn cmd_whole(args: &[String]) -> i32 {
     }
     println!("{}", json!({"cmd":"c17-whole","records":recs.len()}));
     0
+}
+
+/// (d) of c17-whole: sequences on ONE RowWriter of cells written directly and already serialised rows appended: the count the
+/// writer reports is the number of cells it holds. Records {"kind":"writer","steps":[k...] (0 = one cell, n > 0 = append a
+/// row of n-1 values),"count":reported,"cells":expected number,"bytes_ok":0|1}
+pub fn writer_sequences() -> Vec<Value> {
+    use scylla_cql_core::serialize::writers::RowWriter;
+    let int = ColumnType::Native(NativeType::Int);
+    let mut out = Vec::new();
+    let alphabet = [0usize, 1, 2, 3]; // 0: cell; k: append a row of k-1 values
+    let mut seqs: Vec<Vec<usize>> = vec![vec![]];
+    for _ in 0..3 {
+        let mut next = Vec::new();
+        for s in &seqs {
+            for a in alphabet {
+                let mut t = s.clone();
+                t.push(a);
+                next.push(t);
+            }
+        }
+        out.extend(next.iter().cloned());
+        seqs = next;
+    }
+    let all: Vec<Vec<usize>> = out.drain(..).collect();
+    let mut recs = Vec::new();
+    for steps in all {
+        let r = catch_unwind(AssertUnwindSafe(|| {
+            let mut buf = Vec::new();
+            let mut expect_bytes: Vec<u8> = Vec::new();
+            let mut cells = 0usize;
+            let mut w = RowWriter::new(&mut buf);
+            for st in &steps {
+                if *st == 0 {
+                    let _ = SerializeValue::serialize(&9i32, &int, w.make_cell_writer());
+                    expect_bytes.extend_from_slice(&[0, 0, 0, 4, 0, 0, 0, 9]);
+                    cells += 1;
+                } else {
+                    let mut sv = SerializedValues::new();
+                    for k in 0..(*st - 1) {
+                        let _ = sv.add_value(&(k as i32), &int);
+                        expect_bytes.extend_from_slice(&[0, 0, 0, 4]);
+                        expect_bytes.extend_from_slice(&(k as i32).to_be_bytes());
+                    }
+                    cells += *st - 1;
+                    w.append_serialize_row(&sv);
+                }
+            }
+            let count = w.value_count();
+            (count, cells, buf == expect_bytes)
+        }));
+        recs.push(match r {
+            Ok((count, cells, ok)) => json!({"kind":"writer","steps":steps,"count":count,"cells":cells,"bytes_ok":ok as u8,"panic":0}),
+            Err(_) => json!({"kind":"writer","steps":steps,"count":0,"cells":0,"bytes_ok":0,"panic":1}),
+        });
+    }
+    recs
 }
